@@ -12,7 +12,8 @@ UNKNOWN = None
 
 
 class Scan:
-    def __init__(self, point):
+    def __init__(self, point, series_limit=None):
+        self.series_limit = series_limit    # table key -> value of the series function at argument 0 (Fraction) or None
         self.point = point          # atom -> Fraction
         self.memo = {}
         self.flags = []             # (atom, reason)
@@ -91,7 +92,15 @@ class Scan:
             x = self.poly(a.key[0])
             return UNKNOWN if x is UNKNOWN else Fraction(int(x == 0))
         if k == "series":
-            self.poly(a.key[2])
+            u = self.poly(a.key[2])
+            if u is not UNKNOWN and u == 0 and self.series_limit is not None:
+                # at argument 0 the Taylor branch returns its constant coefficient: the limit of the table formula there
+                try:
+                    lim = self.series_limit(a.key[0])
+                except Exception:
+                    lim = None
+                if lim is not None:
+                    return Fraction(lim)
             return UNKNOWN       # the Taylor branch is selected near 0: smooth by construction (what it computes is C06-undecided)
         if k == "recip":
             u = self.poly(a.key[0])
